@@ -47,6 +47,11 @@ def main():
     finally:
         sh("git -C /repo checkout -- .")
         sh("git -C /repo clean -fdq -e target")
+    # evidence files must describe the unchanged tree: re-run the same checks on the restored repo
+    for p in props:
+        rr = sh("./check %s --tier quick" % p, cwd=ROOT)
+        if rr.returncode != 0:
+            print("WARNING: check %s does not pass on the restored tree" % p)
     out = {"tier": tier, "at": time.strftime("%Y-%m-%d %H:%M:%S"), "results": results,
            "detected": any(v["exit"] == 1 and any(l.startswith("VIOLATION") for l in v["lines"]) for v in results.values()),
            "with_failing_input": any(any(l.startswith("VIOLATION") and "no-failing-input-found" not in l for l in v["lines"]) for v in results.values())}
